@@ -462,6 +462,30 @@ def c06(tier, seed):
                     k += 1
     return out
 
+def c02lp(tier, seed):
+    """pools priced below 1 with 1x..3x positions and a price sweep against them: the slice traded by a
+    partial liquidation approaches / exceeds the whole open notional (F8), both sides, both collaterals"""
+    out = []
+    k = 0
+    pushes = [7000, 9000, 10000, 10800, 11500, 12500] if tier == "quick" else [5000, 7000, 8000, 9000, 9500, 10000, 10380, 10800, 11500, 12500, 15000]
+    for coll in ("cw20", "native"):
+        native = coll == "native"
+        for plr in (25, 50):
+            for liqfee in (1, 5):
+                for lev in (100, 200):
+                    for push in pushes:
+                        for vside in ("sell", "buy"):
+                            pside = "buy" if vside == "sell" else "sell"
+                            pm = push // 10 if vside == "sell" else push // 25
+                            ops = [block(901), opn("tr1", vside, 100, lev, funds=100 if native else 0), block(901),
+                                   opn("tr2", pside, pm, 1000, funds=pm if native else 0), block(901),
+                                   query("engine", "margin_ratio", dict(vamm="vamm1", trader="tr1")),
+                                   liq("liq", "tr1"), block(15), liq("tr3", "tr1"), close("tr1")]
+                            out.append(dict(id="c02lp-%d" % k, deploy=dep(coll, engine=dict(plr=plr, liqfee=liqfee), trader_bal=500000,
+                                            vamms=[dict(x=10000, y=100000)]), ops=ops))
+                            k += 1
+    return out
+
 def c07(tier, seed):
     """vault drained by another trader's profit (prepaid bad debt outstanding, tiny vault) before a liquidation"""
     out = []
@@ -587,7 +611,7 @@ def for_property(pid, tier, seed):
     if pid == "C05":
         return [("c05lev", c05(tier, seed)), ("c08sweeps", c08(tier, seed))]
     if pid in ("C02", "C06", "C07", "C08x"):
-        return [("c06funding", c06f(tier, seed)), ("c04funding", c04(tier, seed)), ("c06liq", c06(tier, seed)), ("c07vault", c07(tier, seed)), ("c08sweeps", c08(tier, seed)), ("c16orderings", c16(tier, seed))]
+        return [("c02lowprice", c02lp(tier, seed)), ("c06funding", c06f(tier, seed)), ("c04funding", c04(tier, seed)), ("c06liq", c06(tier, seed)), ("c07vault", c07(tier, seed)), ("c08sweeps", c08(tier, seed)), ("c16orderings", c16(tier, seed))]
     if pid == "C10":
         return [("c10alias", c10(tier, seed)), ("c08sweeps", c08(tier, seed)), ("c16orderings", c16(tier, seed)), ("c07vault", c07(tier, seed))]
     if pid in ("C12", "C04"):
